@@ -157,7 +157,10 @@ func (s *OnDiskAggTrigger) Fire(keyPath string, records []trigger.Record) {
 			return
 		}
 
-		cs = io.ColumnSeriesUnion(cs, &c.cs)
+		// the records just written take precedence over the cached copy of the
+		// same bars (ColumnSeriesUnion keeps the right-hand row of an epoch that
+		// both series hold)
+		cs = io.ColumnSeriesUnion(&c.cs, cs)
 
 		s.write(tbk, cs, tail, head, elements)
 
